@@ -16,9 +16,50 @@ type CondFn func(base ssa.Value) (val bool, known bool)
 type Live struct {
 	Blocks map[*ssa.BasicBlock]bool
 	Edges  map[Edge]bool
+	evalc  func(base ssa.Value, depth int) (bool, bool)
 }
 
-func ReachUnder(fn *ssa.Function, eval CondFn) *Live {
+// EvalBool decides a boolean value of the explored function under the assumption (after exploration).
+func (l *Live) EvalBool(v ssa.Value) (bool, bool) {
+	if l.evalc == nil {
+		return false, false
+	}
+	base, neg := stripNot(v)
+	val, known := l.evalc(base, 0)
+	if neg {
+		val = !val
+	}
+	return val, known
+}
+
+func ReachUnder(fn *ssa.Function, eval CondFn) *Live { return reachUnderD(fn, eval, 0) }
+
+// evalBoolHelper decides a call of a bool-returning module helper under the assumption: the helper is explored with
+// its parameters bound to the call's arguments (values translated into the caller's terms, ssafab.go); the call is
+// decided when every live return carries the same decided value. Two helper levels at most.
+func evalBoolHelper(c *ssa.Call, eval CondFn, hdepth int) (bool, bool) {
+	if hdepth >= 2 {
+		return false, false
+	}
+	fn := boolHelper(c)
+	if fn == nil {
+		return false, false
+	}
+	bind := bindParams(fn, c)
+	lifted := func(base ssa.Value) (bool, bool) { return eval(translateValue(base, bind, 0)) }
+	live := reachUnderD(fn, lifted, hdepth+1)
+	first, have := false, false
+	for _, v := range live.LiveReturns(fn, 0) {
+		val, known := live.EvalBool(v)
+		if !known || (have && val != first) {
+			return false, false
+		}
+		first, have = val, true
+	}
+	return first, have
+}
+
+func reachUnderD(fn *ssa.Function, eval CondFn, hdepth int) *Live {
 	l := &Live{Blocks: map[*ssa.BasicBlock]bool{}, Edges: map[Edge]bool{}}
 	if len(fn.Blocks) == 0 {
 		return l
@@ -44,6 +85,8 @@ func ReachUnder(fn *ssa.Function, eval CondFn) *Live {
 					return !v, true
 				}
 			}
+		case *ssa.Call:
+			return evalBoolHelper(x, eval, hdepth)
 		case *ssa.Phi:
 			first, have := false, false
 			for i, e := range x.Edges {
@@ -65,6 +108,7 @@ func ReachUnder(fn *ssa.Function, eval CondFn) *Live {
 		}
 		return false, false
 	}
+	l.evalc = evalCond
 	// liveness only grows; iterate until no edge is added (a phi condition decided on the edges seen so far may
 	// become undecided when another incoming edge turns out to be live)
 	for {
